@@ -205,7 +205,11 @@ def run(ctx):
                 bad = (w, g)
                 break
         if bad:
-            viol("C09/block/roundtrip-fields/%s" % bad[0]["kind"], "formatted rule `%s` parsed back as `%s`" % (bad[0]["text"], bad[1]["text"]), {"block": T})
+            # (the recorded finding: a comment behind a rule that consists of its keyword only is dropped, in a paragraph as well)
+            kw = {r["kind"] for r in bl if classify(r) == "/bare-keyword-with-comment"}
+            lost_comment = bad[0]["kind"] in kw and "#" in bad[0]["text"] and "#" not in bad[1]["text"] and bad[0]["text"].split("#")[0].strip() == bad[1]["text"].strip()
+            viol("C09/parse-differs-from-text/bare-keyword-with-comment" if lost_comment else "C09/block/roundtrip-fields/%s" % bad[0]["kind"],
+                 "formatted rule `%s` parsed back as `%s`" % (bad[0]["text"], bad[1]["text"]), {"block": T})
         elif rep["ok"]["text"] != T:
             viol("C09/block/reformat-differs", "re-formatting the parsed block gives different text", {"block": T, "again": rep["ok"]["text"]})
     # --- profile files --------------------------------------------------------------------
